@@ -15,6 +15,7 @@
 (* Part B  forbidden construct inside `pu`   (kind = the construct)        *)
 (* Part C  impure function into a `pu` type  (kind = position, form = how  *)
 (*         the impure function arrives)                                    *)
+(* Part D  Part B's constructs x kind of value x syntactic position        *)
 (***************************************************************************)
 EXTENDS SyltAst, FiniteSets, TLC
 
@@ -307,22 +308,222 @@ CCases == {[part |-> "C", kind |-> pos, form |-> arr, path |-> <<>>, host |-> "v
 CCaseOk(c) == c.kind = "global-annot" => ~CArrHasLocals(c.form)
 
 ---------------------------------------------------------------------------
+(* Part D: the constructs forbidden inside `pu` crossed with the KIND of value involved and the syntactic POSITION
+   in which the name / value occurs (round 3).  kind = construct family (+ scope of the variable / shape of the
+   callee), form = value kind and position / target / call surface.
+     xread-global / xread-outer   read of a mutable global / of a mutable local of the enclosing fn that holds an int,
+                                  a list, a blob, a tuple, a PURE function or an impure function, in every position
+                                  a name can take: alias, argument, arrow-call receiver, tuple / list element,
+                                  argument of a pure std function, operand (left / right / negated), receiver of a
+                                  field read / of a call of a pu-typed field, index base, receiver of list.get, and
+                                  - for function values - CALLEE of `f(x)`, `f' x`, `x -> f()`, `x -> f'`, `f(f(x))`.
+                                  base 1: the same program with the variable declared constant.
+     xdecl / xdecl-annot          `x := v` / `x: T = v` for every kind of value v: int, str, list, blob, tuple, variant,
+                                  pu / fn FUNCTION LITERAL, name of a pu / fn function, if-expression, call result.
+                                  base 1: `x :: v` / `x: T : v`.
+     xasg-global / xasg-outer     assignment to a mutable variable per kind of value and target shape (variable, `+=`,
+                                  field, field holding a function, tuple index; function literal / function name as value).
+                                  base 1: `x :: <the value>` in the same place.
+     xcall-<callee>               call of a function not known to be pure per callee shape (global fn, fn-typed parameter,
+                                  local fn, fn of the enclosing fn, fn-typed blob field, mutable variable holding a fn,
+                                  print, list.push) crossed with the call's surface: `f(a)`, `f' a`, `a -> f()`, `a -> f'`.
+                                  base 1: `inc` called in the same surface form.
+   base 2 (all families): every `pu` of host and placement written `fn`.
+   Host:  p :: pu a: int, k: fn int -> int -> int do  c :: 1 ; lb :: B1 {..} ; l :: [1, 2] ; lf :: fn y: int -> int ..
+                <placement, paths of length <= 2> ; a end
+   (global, or a closure of start when the variable / callee is a local of start). *)
+GTk == 1030   GGv == 1031   GF1 == 1032   GMf1 == 1033
+TK == TName("K")
+TB1 == TName("B1")
+CallF(f, args, form) == [k |-> "call", f |-> f, args |-> args, form |-> form]   \* form: 0 f(a) 1 f' a 2 a -> f() 3 a -> f'
+DVKinds == {"int", "list", "blob", "tuple", "pufn", "fn"}
+DTy(vk) == CASE vk = "int" -> TInt [] vk = "list" -> TList(TInt) [] vk = "blob" -> TK
+             [] vk = "tuple" -> TTuple(<<TInt, TInt>>) [] vk = "pufn" -> FnT(TRUE) [] vk = "fn" -> FnT(FALSE)
+Fn1(pure, n) == MkFn(pure, <<P(42, TInt)>>, TInt, <<Ex(Bin("+", V(42), I(n)))>>)
+MkK(n) == BlobL("K", <<FI("n", I(n)), FI("pg", MkFn(TRUE, <<>>, TInt, <<Ex(I(n))>>))>>)
+DLit(vk, n) == CASE vk = "int" -> I(n) [] vk = "list" -> Lst(<<I(n), I(2)>>) [] vk = "blob" -> MkK(n)
+                 [] vk = "tuple" -> Tup(<<I(n), I(2)>>) [] vk = "pufn" -> Fn1(TRUE, n) [] vk = "fn" -> Fn1(FALSE, n)
+
+DPair(a, b) == a \o "@" \o b
+
+\* ---- reads
+DReadPos(vk) == {"alias", "arg", "arrow-lhs", "tuple-elem", "list-elem", "std-arg"} \cup
+  (CASE vk = "int" -> {"operand-l", "operand-r", "neg"}
+     [] vk = "list" -> {"std-recv", "std-arrow-recv"}
+     [] vk = "blob" -> {"field-recv", "method-recv"}
+     [] vk = "tuple" -> {"index-base"}
+     [] vk = "pufn" -> {"callee", "callee-prime", "arrow-target", "arrow-prime-target", "callee-nested"}
+     [] vk = "fn" -> {})
+DReadPairs == {<<vk, pos>> : vk \in DVKinds, pos \in UNION {DReadPos(v) : v \in DVKinds}}
+DReadOk(pr) == pr[2] \in DReadPos(pr[1])
+DReadEPos == {"arg", "operand-l", "operand-r", "field-recv", "method-recv", "index-base", "callee", "callee-nested"}
+DReadE(pos, v) ==
+  CASE pos = "arg" -> CallF(V(GTk), <<v>>, 0)
+    [] pos = "operand-l" -> Bin("+", v, I(1)) [] pos = "operand-r" -> Bin("+", I(1), v)
+    [] pos = "field-recv" -> Fld(v, "n") [] pos = "method-recv" -> CallF(Fld(v, "pg"), <<>>, 0)
+    [] pos = "index-base" -> Idx(v, 0)
+    [] pos = "callee" -> CallF(v, <<I(1)>>, 0)
+    [] pos = "callee-nested" -> CallF(v, <<CallF(v, <<I(1)>>, 0)>>, 0)
+DReadS(pos, v) ==
+  CASE pos = "alias" -> <<DefC(90, TNone, v)>>
+    [] pos = "arrow-lhs" -> <<Ex(CallF(V(GTk), <<v>>, 2))>>
+    [] pos = "tuple-elem" -> <<DefC(90, TNone, Tup(<<v, I(1)>>))>>
+    [] pos = "list-elem" -> <<DefC(90, TNone, Lst(<<v>>))>>
+    [] pos = "std-arg" -> <<DefC(90, TNone, CallF(Std("as_str"), <<v>>, 0))>>
+    [] pos = "neg" -> <<DefC(90, TNone, Un("-", v))>>
+    [] pos = "std-recv" -> <<DefC(90, TNone, CallF(Std("list.get"), <<v, I(0)>>, 0))>>
+    [] pos = "std-arrow-recv" -> <<DefC(90, TNone, CallF(Std("list.get"), <<v, I(0)>>, 2))>>
+    [] pos = "callee-prime" -> <<Ex(CallF(v, <<I(1)>>, 1))>>
+    [] pos = "arrow-target" -> <<Ex(CallF(v, <<I(1)>>, 2))>>
+    [] pos = "arrow-prime-target" -> <<Ex(CallF(v, <<I(1)>>, 3))>>
+    [] OTHER -> <<DefC(90, TNone, DReadE(pos, v))>>
+
+\* ---- declarations: value kinds
+DDeclVals == {"int", "str", "list", "blob", "tuple", "variant", "pufn-lit", "fn-lit", "pufn-name", "fn-name", "ifexpr", "call"}
+DDeclTy(dv) == CASE dv \in {"int", "ifexpr", "call"} -> TInt [] dv = "str" -> TStr [] dv = "list" -> TList(TInt)
+                 [] dv = "blob" -> TK [] dv = "tuple" -> TTuple(<<TInt, TInt>>) [] dv = "variant" -> TName("E")
+                 [] dv \in {"pufn-lit", "pufn-name"} -> FnT(TRUE) [] dv \in {"fn-lit", "fn-name"} -> FnT(FALSE)
+\* (the printer drops the annotation of a definition whose value is a function-literal NODE: the annotated
+\*  declarations of function literals carry the literal as verbatim one-line text, as in Part C)
+DDeclVal(dv, annot) ==
+  CASE dv = "int" -> I(1) [] dv = "str" -> St("s") [] dv = "list" -> Lst(<<I(1), I(2)>>) [] dv = "blob" -> MkK(1)
+    [] dv = "tuple" -> Tup(<<I(1), I(2)>>) [] dv = "variant" -> Var1("E", "X", I(1))
+    [] dv = "pufn-lit" -> IF annot THEN Std("pu y: int -> int do y + 1 end") ELSE Fn1(TRUE, 1)
+    [] dv = "fn-lit" -> IF annot THEN Std("fn y: int -> int do y + 1 end") ELSE Fn1(FALSE, 1)
+    [] dv = "pufn-name" -> V(GInc) [] dv = "fn-name" -> V(GF1)
+    [] dv = "ifexpr" -> If2(Bin("<", V(1), I(0)), <<Ex(I(1))>>, <<Ex(I(2))>>)
+    [] dv = "call" -> CallF(V(GInc), <<I(1)>>, 0)
+
+\* ---- assignments: <value kind>@<target shape>
+DAsgShapes(vk) == {"var="} \cup
+  (CASE vk = "int" -> {"var+="} [] vk = "blob" -> {"field=", "field+=", "fnfield="} [] vk = "tuple" -> {"index="}
+     [] vk \in {"pufn", "fn"} -> {"var=name"} [] OTHER -> {})
+DAsgPairs == {<<vk, sh>> : vk \in DVKinds, sh \in UNION {DAsgShapes(v) : v \in DVKinds}}
+DAsgOk(pr) == pr[2] \in DAsgShapes(pr[1])
+DAsgVal(vk, sh) ==
+  CASE sh \in {"var+=", "field=", "field+=", "index="} -> I(2)
+    [] sh = "fnfield=" -> MkFn(TRUE, <<>>, TInt, <<Ex(I(2))>>)
+    [] sh = "var=name" -> IF vk = "pufn" THEN V(GInc) ELSE V(GF1)
+    [] OTHER -> DLit(vk, 2)
+DAsgStmt(vk, sh, v) ==
+  LET t == CASE sh \in {"field=", "field+="} -> Fld(v, "n") [] sh = "fnfield=" -> Fld(v, "pg")
+             [] sh = "index=" -> Idx(v, 0) [] OTHER -> v
+      op == IF sh \in {"var+=", "field+="} THEN "+=" ELSE "="
+  IN <<Asg(op, t, DAsgVal(vk, sh))>>
+
+\* ---- calls: callee shape x surface form
+DCallees == {"global-fn", "param-fn", "local-fn", "outer-fn", "field-fn", "mutvar-fn", "std-print", "std-push"}
+DSurfaces == {"paren", "prime", "arrow", "arrow-prime"}
+DSurfIdx(sf) == CASE sf = "paren" -> 0 [] sf = "prime" -> 1 [] sf = "arrow" -> 2 [] sf = "arrow-prime" -> 3
+DCallKind(c) == "xcall-" \o c
+DCalleeOf(kind) == CHOOSE c \in DCallees : DCallKind(c) = kind
+DCallExpr(c, sf) ==
+  LET n == DSurfIdx(sf) IN
+  CASE c = "global-fn" -> CallF(V(GF1), <<I(1)>>, n) [] c = "param-fn" -> CallF(V(2), <<I(1)>>, n)
+    [] c = "local-fn" -> CallF(V(8), <<I(1)>>, n) [] c = "outer-fn" -> CallF(V(22), <<I(1)>>, n)
+    [] c = "field-fn" -> CallF(Fld(V(5), "get1"), <<I(1)>>, n) [] c = "mutvar-fn" -> CallF(V(GMf1), <<I(1)>>, n)
+    [] c = "std-print" -> CallF(Std("print"), <<I(1)>>, n)
+    [] c = "std-push" -> CallF(Std("list.push"), <<V(6), I(1)>>, n)
+
+\* ---- kinds, forms, holes
+DKinds == {"xread-global", "xread-outer", "xdecl", "xdecl-annot", "xasg-global", "xasg-outer"} \cup {DCallKind(c) : c \in DCallees}
+DFam(kind) == CASE kind \in {"xread-global", "xread-outer"} -> "read" [] kind \in {"xdecl", "xdecl-annot"} -> "decl"
+                [] kind \in {"xasg-global", "xasg-outer"} -> "asg" [] OTHER -> "call"
+DLocalHost(kind) == kind \in {"xread-outer", "xasg-outer", DCallKind("outer-fn")}
+DForms(kind) ==
+  CASE DFam(kind) = "read" -> {DPair(pr[1], pr[2]) : pr \in {q \in DReadPairs : DReadOk(q)}}
+    [] DFam(kind) = "decl" -> DDeclVals
+    [] DFam(kind) = "asg" -> {DPair(pr[1], pr[2]) : pr \in {q \in DAsgPairs : DAsgOk(q)}}
+    [] OTHER -> DSurfaces
+DAllForms == UNION {DForms(kd) : kd \in DKinds}
+DReadPr(form) == CHOOSE pr \in DReadPairs : DReadOk(pr) /\ DPair(pr[1], pr[2]) = form
+DAsgPr(form) == CHOOSE pr \in DAsgPairs : DAsgOk(pr) /\ DPair(pr[1], pr[2]) = form
+DHasE(kind, form) ==
+  CASE DFam(kind) = "read" -> DReadPr(form)[2] \in DReadEPos
+    [] DFam(kind) = "call" -> form = "paren" /\ DCalleeOf(kind) \notin {"std-print", "std-push"}
+    [] OTHER -> FALSE
+DClause(kind) == CASE DFam(kind) = "read" -> "pure-no-read-of-mutable" [] DFam(kind) = "decl" -> "pure-no-mutable-declaration"
+                   [] DFam(kind) = "asg" -> "pure-no-assignment" [] OTHER -> "pure-no-call-of-impure"
+DVk(kind, form) == CASE DFam(kind) = "read" -> DReadPr(form)[1] [] DFam(kind) = "asg" -> DAsgPr(form)[1] [] OTHER -> "int"
+
+DHole(kind, form, sort, planted) ==
+  LET v == IF DLocalHost(kind) THEN V(20) ELSE V(GGv) IN
+  CASE DFam(kind) = "read" ->
+         (IF sort = "E" THEN DReadE(DReadPr(form)[2], v) ELSE DReadS(DReadPr(form)[2], v))
+    [] DFam(kind) = "decl" ->
+         LET an == kind = "xdecl-annot"
+             ty == IF an THEN DDeclTy(form) ELSE TNone
+         IN <<DefN(90, IF planted THEN "mut" ELSE "const", ty, DDeclVal(form, an), "")>>
+    [] DFam(kind) = "asg" ->
+         LET pr == DAsgPr(form) IN
+         IF planted THEN DAsgStmt(pr[1], pr[2], v) ELSE <<DefC(90, TNone, DAsgVal(pr[1], pr[2]))>>
+    [] OTHER ->
+         LET e == IF planted THEN DCallExpr(DCalleeOf(kind), form) ELSE CallF(V(GInc), <<I(1)>>, DSurfIdx(form))
+         IN IF sort = "E" THEN e ELSE <<Ex(e)>>
+
+DNames == <<Nm(1, "a"), Nm(2, "k"), Nm(4, "c"), Nm(5, "lb"), Nm(6, "l"), Nm(8, "lf"), Nm(20, "m"), Nm(21, "p"),
+            Nm(22, "of"), Nm(42, "y"), Nm(43, "t"), Nm(90, "x")>>
+MkB1 == BlobL("B1", <<FI("n", I(1)), FI("get1", Fn1(FALSE, 0))>>)
+DLocals == <<DefC(4, TNone, I(1)), DefC(5, TNone, MkB1), DefC(6, TNone, Lst(<<I(1), I(2)>>)), DefC(8, TNone, Fn1(FALSE, 0))>>
+
+\* pure / planted as in Part B; for reads `planted` decides the variable's declaration, for the others the hole
+DProg(kind, form, path, pure, planted) ==
+  LET fam == DFam(kind)
+      vk == DVk(kind, form)
+      body == Build(path, 1, pure, DHole(kind, form, HoleSort(path), planted))
+      pf == MkFn(pure, <<P(1, TInt), P(2, FnT(FALSE))>>, TInt, DLocals \o body \o <<Ex(V(1))>>)
+      vdk == IF fam = "read" /\ ~planted THEN "const" ELSE "mut"
+      hasvar == fam \in {"read", "asg"}
+      globals == Common \o
+        <<BlobD("K", <<FD("n", TInt), FD("pg", FnT0(TRUE))>>),
+          BlobD("B1", <<FD("n", TInt), FD("get1", FnT(FALSE))>>),
+          DefN(GTk, "const", TNone, MkFn(TRUE, <<P(43, DTy(vk))>>, TInt, <<Ex(I(1))>>), "tk"),
+          DefN(GF1, "const", TNone, Fn1(FALSE, 1), "f1"),
+          DefN(GMf1, "mut", TNone, Fn1(FALSE, 1), "mf1")>>
+        \o (IF hasvar /\ ~DLocalHost(kind) THEN <<DefN(GGv, vdk, TNone, DLit(vk, 1), "gv")>> ELSE <<>>)
+      lvar == IF hasvar THEN <<DefN(20, vdk, TNone, DLit(vk, 1), "")>> ELSE <<DefC(22, TNone, Fn1(FALSE, 0))>>
+      args == <<I(1), V(GF1)>>
+  IN [names |-> DNames, mods |-> <<>>,
+      main |-> IF DLocalHost(kind)
+               THEN globals \o <<StartDef(lvar \o <<DefC(21, TNone, pf), Print(Call(V(21), args))>>)>>
+               ELSE globals \o <<DefN(GP, "const", TNone, pf, "p"), StartDef(<<Print(Call(V(GP), args))>>)>>]
+
+\* (built like BCases - a plain product filtered by a constant-set membership - which TLC evaluates once, at start-up)
+DCells == UNION {{<<kd, f>> : f \in DForms(kd)} : kd \in DKinds}
+DCellsE == {cell \in DCells : DHasE(cell[1], cell[2])}
+DPaths == {p \in BPaths : Len(p) <= 2}
+DHostOf(kind) == IF DLocalHost(kind) THEN "local" ELSE "global"
+DCases == {[part |-> "D", kind |-> cell[1], form |-> cell[2], path |-> p, host |-> DHostOf(cell[1])] : cell \in DCells, p \in DPaths}
+DCaseOk(c) == HoleSort(c.path) = "E" => <<c.kind, c.form>> \in DCellsE
+
+---------------------------------------------------------------------------
 (* The universe, the programs of a case, and the expectation *)
-Cases == {c \in ACases : ACaseOk(c)} \cup {c \in BCases : BCaseOk(c)} \cup {c \in CCases : CCaseOk(c)}
+(* (TLC's `\cup` looks every element of its right operand up in the left one - by binary search only when the left
+   operand is a normalised value, which cached constant definitions are: the union is built as a chain of constants.) *)
+CasesA == {c \in ACases : ACaseOk(c)}
+CasesB == {c \in BCases : BCaseOk(c)}
+CasesC == {c \in CCases : CCaseOk(c)}
+CasesD == {c \in DCases : DCaseOk(c)}
+CasesBA == CasesB \cup CasesA
+CasesBAC == CasesBA \cup CasesC
+Cases == CasesBAC \cup CasesD
 
 Planted(c) ==
   CASE c.part = "A" -> AProg(c.kind, c.form, c.path, TRUE)
     [] c.part = "B" -> BProg(c.kind, c.form, c.path, c.host, TRUE, TRUE)
     [] c.part = "C" -> CProg(c.kind, c.form, TRUE, FALSE)
+    [] c.part = "D" -> DProg(c.kind, c.form, c.path, TRUE, TRUE)
 Bases(c) ==
   CASE c.part = "A" -> <<AProg(c.kind, c.form, c.path, FALSE)>>
     [] c.part = "B" -> <<BProg(c.kind, c.form, c.path, c.host, TRUE, FALSE), BProg(c.kind, c.form, c.path, c.host, FALSE, TRUE)>>
     [] c.part = "C" -> <<CProg(c.kind, c.form, FALSE, FALSE), CProg(c.kind, c.form, TRUE, TRUE)>>
+    [] c.part = "D" -> <<DProg(c.kind, c.form, c.path, TRUE, FALSE), DProg(c.kind, c.form, c.path, FALSE, TRUE)>>
 
 Clause(c) ==
   CASE c.part = "A" -> "constant-not-assignable"
     [] c.part = "B" -> BClause(c.kind)
     [] c.part = "C" -> "impure-not-accepted-as-pu"
+    [] c.part = "D" -> DClause(c.kind)
 
 \* what the property demands of the compile results
 ExpectBase == "ok"
